@@ -8,14 +8,17 @@ import (
 
 var universe = []string{"1", "2", "3", "4"}
 
+// thorough: [first] and [ooo] enumerate 5 versions
+var universe5 = []string{"1", "2", "3", "4", "5"}
+
 func rule(tier string) string {
 	return "real CLI on SQLite files, one `migrate status --format '{{ json . }}'` after every step, revisions table read by an independent sqlite3 client. " +
 		"Families: [first] EVERY directory over versions {1..4} x {file, checkpoint file} (80) on a never-touched database (clean; plus dirty with --allow-dirty): status, apply n (n in 0,1,2), status, apply, status; " +
 		"[baseline] every such directory x --baseline v; [ooo] EVERY split of {1..4} into {absent, present at the first apply, added afterwards} x first apply n in {all,1} x the three exec orders: apply, add files, status, apply, status, apply, status; " +
-		"[fail] every plain directory over {1,2,3} x every failing (file, statement) x tx-mode {none,file} x continuation {apply again, fix the file and apply, set v for every v, set without version}; " +
+		"[fail] every plain directory over {1,2,3} x every failing (file, statement) x tx-mode {none,file} x continuation {apply again, fix the file and apply, grow the partially applied file by a statement then fix and apply (stale Total), set v for every v, set without version}; " +
 		"[set] every directory over {1,2,3} x {file, checkpoint} x apply n in {none,1,all} x set v for every v in {1,2,3,9} and without version, then status, apply, status; " +
 		"[nonlinear-fail] out-of-order file that fails under non-linear; [gone] the partially applied file is deleted (with / without other migration files left); [random] seeded random sequences of 5-9 operations (apply n/order/tx-mode/dry-run, set, add file or checkpoint out of order or newer, delete file, fix). " +
-		"Every CLI answer is one model query (directory + observed table + command). Non-trivial = scenario in which a revisions table with at least one row was reached and status answered; distinct by scenario id"
+		"CLOSED LOOP: the model gets only the start state, the directory of each moment and the commands; it threads its own database state (table exists, rows with hashes, other resources) through the sequence, and after every apply/set also the revisions table and the dirty flag it predicts are compared with what the independent client reads. Thorough: [first]/[ooo] over 5 versions. Non-trivial = scenario in which a revisions table with at least one row was reached and status answered; distinct by scenario id"
 }
 
 func mk(v string, ck bool) fileSpec { return fileSpec{Ver: v, Ckpt: ck, NStmts: 2, Bad: -1} }
@@ -65,27 +68,35 @@ func generate(tier string, r *rng.R) []scenario {
 		return n
 	}
 
+	uni := universe
+	if thorough {
+		uni = universe5
+	}
 	// [first] first run on a never-touched database, every directory
-	for _, d := range allDirs(universe) {
+	for _, d := range allDirs(uni) {
 		add("first", false, d, apply(0, "linear"), apply(0, "linear"))
 		add("first", false, d, apply(1, "linear"), apply(0, "linear"))
 		if len(d) == 4 || thorough {
 			add("first", false, d, apply(2, "linear"), apply(0, "linear"))
 		}
-		if d.find("4") == nil || thorough {
+		if d.find("4") == nil || (thorough && d.find("5") == nil) {
 			o := apply(0, "linear")
 			o.AllowDirty = true
 			add("first", true, d, o)
 		}
-		if thorough {
+		if thorough && d.find("5") == nil {
 			add("first", true, d, apply(0, "linear")) // refused: not clean
 		}
 	}
 	// [ooo] every split {absent, initial, later}
-	for x := 0; x < 81; x++ {
+	pow3 := 1
+	for range uni {
+		pow3 *= 3
+	}
+	for x := 0; x < pow3; x++ {
 		var init, later dirSpec
 		y := x
-		for _, v := range universe {
+		for _, v := range uni {
 			switch y % 3 {
 			case 1:
 				init = append(init, mk(v, false))
@@ -157,6 +168,10 @@ func generate(tier string, r *rng.R) []scenario {
 						{apply(0, "linear")},
 						{{Kind: "fix", Ver: bd[j].Ver}, apply(0, "linear")},
 					}
+					if tx == "none" {
+						// stale Total: the partially applied file grows by a statement before it is fixed and resumed
+						conts = append(conts, []op{{Kind: "grow", Ver: bd[j].Ver}, {Kind: "fix", Ver: bd[j].Ver}, apply(0, "linear"), apply(0, "linear")})
+					}
 					if tx == "none" || thorough {
 						conts = append(conts, []op{{Kind: "set"}, apply(0, "linear")})
 						for _, f := range d {
@@ -184,14 +199,25 @@ func generate(tier string, r *rng.R) []scenario {
 			add("baseline", true, d, o, apply(0, "linear"))
 		}
 	}
-	// [nonlinear-fail] an out-of-order file failing midway under non-linear (known finding)
-	for _, k := range []int{0, 1} {
-		bad := mk("2", false)
-		bad.Bad = k
-		nl := apply(0, "non-linear")
-		nl.TxMode = "none"
-		add("nonlinear-fail", false, dirSpec{mk("1", false), mk("3", false)},
-			apply(0, "linear"), op{Kind: "add", Files: []fileSpec{bad}}, nl, apply(0, "non-linear"))
+	// [nonlinear-fail] an out-of-order file failing midway under non-linear: a partially applied
+	// revision that is not the latest one (formerly known finding C11-nonlinear-partial-not-resumed)
+	for _, init := range []dirSpec{{mk("1", false), mk("3", false)}, {mk("1", false), mk("3", false), mk("4", false)}, {mk("1", false), mk("4", false)}} {
+		for _, k := range []int{0, 1} {
+			bad := mk("2", false)
+			bad.Bad = k
+			nl := apply(0, "non-linear")
+			nl.TxMode = "none"
+			pre := []op{apply(0, "linear"), {Kind: "add", Files: []fileSpec{bad}}, nl}
+			for _, cont := range [][]op{
+				{apply(0, "non-linear")},
+				{{Kind: "fix", Ver: "2"}, apply(0, "non-linear"), apply(0, "non-linear")},
+				{{Kind: "fix", Ver: "2"}, apply(0, "linear")},
+				{{Kind: "fix", Ver: "2"}, apply(0, "linear-skip")},
+				{{Kind: "set", Arg: init[len(init)-1].Ver}, {Kind: "fix", Ver: "2"}, apply(0, "non-linear")},
+			} {
+				add("nonlinear-fail", false, init, append(append([]op{}, pre...), cont...)...)
+			}
+		}
 	}
 	// [gone] the partially applied file disappears (MissingMigrationError / "migration file with version not found")
 	for _, k := range []int{0, 1} {
@@ -267,7 +293,11 @@ func generate(tier string, r *rng.R) []scenario {
 				}
 			default:
 				if len(cur) > 0 {
-					ops = append(ops, op{Kind: "fix", Ver: cur[r.Intn(len(cur))].Ver})
+					k := "fix"
+					if r.Bool() {
+						k = "grow"
+					}
+					ops = append(ops, op{Kind: k, Ver: cur[r.Intn(len(cur))].Ver})
 				}
 			}
 		}
